@@ -81,7 +81,12 @@ func (items ipPairs) Len() int {
 
 // Less compares specified items
 func (items ipPairs) Less(i, j int) bool {
-	return bytes.Compare(items[i].startIP, items[j].startIP) >= 0
+	if c := bytes.Compare(items[i].startIP, items[j].startIP); c != 0 {
+		return c > 0
+	}
+	// same startIP: the larger range first, so that zeroed (merged) items
+	// sort after real ranges starting at the zero address
+	return bytes.Compare(items[i].endIP, items[j].endIP) >= 0
 }
 
 // Swap swaps specified items
@@ -149,16 +154,29 @@ func (ipItems *IPItems) mergeItems() int {
 
 	for i := 0; i < length-1; i++ {
 
-		if items[i].endIP.Equal(net.IPv6zero) || items[i].endIP.Equal(net.IPv4zero) {
+		// skip items already merged (zeroed); 0.0.0.0-0.0.0.0 is a real range
+		if items[i].endIP.Equal(net.IPv6zero) {
 			continue
 		}
 
 		for j := i + 1; j < length; j++ {
-			if items[j].endIP.Equal(net.IPv6zero) || items[i].endIP.Equal(net.IPv4zero) {
+			if items[j].endIP.Equal(net.IPv6zero) {
 				continue
 			}
 
-			mergedNum += ipItems.checkMerge(i, j)
+			n := ipItems.checkMerge(i, j)
+			if n > 0 {
+				// checkMerge leaves 0.0.0.0-0.0.0.0 items in (i, j) untouched,
+				// they are covered by items[i] now
+				for k := i + 1; k < j; k++ {
+					if items[k].endIP.Equal(net.IPv4zero) {
+						items[k].startIP = net.IPv6zero
+						items[k].endIP = net.IPv6zero
+						n++
+					}
+				}
+			}
+			mergedNum += n
 		}
 	}
 
